@@ -56,7 +56,9 @@ Lemma scan_function_spec : forall im stack names omap marks z,
 Proof.
   induction names as [|n r IH]; intros omap marks z H; cbn [scan_function] in H.
   - injection H as <- <- _. constructor.
-  - destruct (im && String.eqb n "__class__"); [injection H as <- <- _; constructor|].
+  - destruct (im && String.eqb n "__class__").
+    { destruct (scan_function im stack r) as [[[m ms] z']|] eqn:Er; cbn [rbind] in H; [|discriminate].
+      injection H as <- <- _. exact (IH m ms z' eq_refl). }
     destruct (find_origin stack n) as [[o p]|] eqn:Eo; cbn [rbind] in H; [|discriminate].
     destruct (scan_function im stack r) as [[[m ms] z']|] eqn:Er; cbn [rbind] in H; [|discriminate].
     injection H as <- <- _. cbn [fst snd]. constructor.
